@@ -17,28 +17,41 @@ from harness import c10_util
 from translate import c10_bspgraph
 
 MANIFEST = dict(
-    technique='Rocq proof (lazy-lump state machine: get/save over a dependency graph, invariant by induction over ALL '
-              'access sequences) + ast translator of the ParsedLump/rebuild-order/reader/writer dependency graph + '
-              'vm_compute correspondence on traced runs + round-trip oracle on real and synthesised BSPs',
-    text='Theorems in Props/C10.v, for every dependency graph g with order_consistent g = true and every sequence of '
-         'view accesses: looking never changes what a view denotes (cleared raw data is matched by a cached value), '
-         'looking always terminates, save empties the cache, every view parses to the same content afterwards, lumps '
-         'without a view and lumps of untouched views are byte-identical, a second save is the identity, any number of '
-         'look/save cycles is lossless; each clause of order_consistent is shown necessary by a closed counterexample. '
-         'order_consistent bsp_graph (every reader/writer dependency lies later in LUMP_REBUILD_ORDER, so in particular '
-         'no writer looks at its own view; every cleared lump is stored by its writer; no lump owned twice) is '
-         're-derived from bsp.py by translate/c10_bspgraph.py and kernel-checked on every run. The hand-written get/save '
-         'model is compared with ParsedLump.__get__/BSP.save on traced runs; the whole pipeline (container, LZMA, game '
-         'lumps, codecs) is searched on tests/test_vec/rot_main.bsp and synthesised BSPs of 7 layouts.',
-    note='Assumed in the theorems (visible hypotheses): each lump writer inverts its reader on the file\'s lumps '
-         '(codec_ok, wr_len_ok: property C11). Not modelled, searched only: the file container (header, lump table, '
-         'game-lump directory, LZMA), FACEIDS (read and conditionally stored by the face writers without being owned by '
-         'a view), VitaminSource-only branches, hidden mutation of the ents view by the bmodels reader. Trusted: Coq '
-         'kernel + vm_compute, translate/c10_bspgraph.py (may-analysis; its result must contain every dynamically traced '
-         'dependency), the hand model SM/LazyLumps.v (tied by correspondence), CPython lzma/zipfile.',
+    technique='Rocq proof (lazy-lump state machine with looks that raise: get/save over a dependency graph and a generated '
+              'statement-order/loop shape, invariant by induction over ALL access sequences; file container model with '
+              'read (write c) = c) + ast translator (ParsedLump/rebuild-order/reader/writer dependency graph, event order of '
+              'ParsedLump.__get__ on every path, loop shape of BSP.save, reader-side lump stores, read-only/appending view uses, '
+              'container constants) + vm_compute correspondences (traced get/save runs including raising looks; container model '
+              'vs BSP.read/BSP.save byte-exact in both directions) + round-trip oracle on real, synthesised and malformed BSPs',
+    text='Theorems in Props/C10.v, for every dependency graph g with order_consistent g = true, every __get__/save shape sh with '
+         'shape_ok sh = true and every sequence of view accesses, including accesses whose reader raises and is caught: a look '
+         'succeeds or fails only because some reader rejects the file\'s data (never for lack of fuel); a failed look leaves the '
+         'view uncached, its lumps untouched and every view\'s denotation unchanged (literally the identity for views without '
+         'reader dependencies); looking never changes what a view denotes; if save completes it empties the cache, every view '
+         'parses to the same content (or is rejected as before), lumps without a view and lumps of untouched views are '
+         'byte-identical, a second save is the identity, any number of look/save cycles is lossless; save completes whenever '
+         'writers look only where readers looked (decidable on the graph). Each clause of order_consistent and each flag of the '
+         'shape (raw data cleared before the reader finished = seeded c10_2; save walking a snapshot of the cached views = '
+         'seeded c10_1) is shown harmful by a closed counterexample. Container: read (write c) = Some c for every well-formed '
+         'container and layout with LZMA as an inverse pair (header, 64-row table in standard and L4D2 field order, revision, '
+         'payload placement in write order, game-lump directory with absolute offsets, NUL separators and the dummy entry); '
+         'four wf conditions shown necessary. order_consistent bsp_graph, shape_ok bsp_shape, layout_ok bsp_layout, '
+         'bsp_layout = std_layout and 18 further named obligations are re-derived from bsp.py and kernel-checked on every run.',
+    note='Assumed in the theorems (visible hypotheses): each lump writer inverts its reader on the file\'s lumps (codec_ok, '
+         'wr_len_ok: property C11); decompress (compress d) = d (CPython lzma). The container theorem is about the model '
+         'Fmt/BspContainer.v, tied to BSP.read/BSP.save by byte-exact correspondence on random containers (not by a translator of '
+         'the save body beyond its constants and loop shape); negative int32 fields, files >= 2 GiB, duplicate game-lump ids and '
+         'truncated files are outside wf. Writers that append to a view they look at (find_or_insert) are classified and '
+         'obliged to be read-or-append only; that appends are no-ops on values parsed from the file (every referenced item is '
+         'already in its table: C11 find_or_insert_sound) is assumed, checked end to end by the oracle. Not modelled, searched '
+         'only: FACEIDS (conditionally stored, unowned), VitaminSource-only branches, hidden mutation of the ents view by the '
+         'bmodels reader, zipfile. A save that raises because a writer looks at an unparsable view of a malformed file produces no '
+         'file and is not counted as a violation. Trusted: Coq kernel + vm_compute, translate/c10_bspgraph.py (may-analysis; its '
+         'result must contain every dynamically traced dependency), hand models SM/LazyLumps.v and Fmt/BspContainer.v (tied by '
+         'correspondence), harness/c10_util.py, CPython lzma/zipfile.',
 )
 
-IMPORTS = ['SV.SM.LazyLumps', 'SV.Gen.BspGraph_gen', 'Coq.Lists.List', 'Coq.Arith.Arith', 'Coq.Bool.Bool']
+IMPORTS = ['SV.SM.LazyLumps', 'SV.SM.LazyLumpsProofs', 'SV.Fmt.BspContainer', 'SV.Gen.BspGraph_gen', 'Coq.Strings.String', 'Coq.Lists.List', 'Coq.Arith.Arith', 'Coq.Bool.Bool']
 VIEWS = ['pakfile', 'ents', 'textures', 'texinfo', 'cubemaps', 'overlays', 'bmodels', 'brushes', 'visleafs',
          'water_leaf_info', 'nodes', 'visibility', 'vertexes', 'surfedges', 'planes', 'faces', 'orig_faces', 'hdr_faces',
          'primitives', 'props', 'detail_props']
@@ -129,6 +142,14 @@ def raw_snapshot(b) -> dict:
     }
 
 
+def _lump_data(b, lname: str):
+    from srctools.bsp import BSP_LUMPS
+    if lname.startswith('game:'):
+        g = b.game_lumps.get(lname[5:].encode())
+        return None if g is None else bytes(g.data)
+    return bytes(b.lumps[BSP_LUMPS[lname]].data)
+
+
 class Subject:
     """One input file with its reference observations (computed lazily, once)."""
 
@@ -136,6 +157,33 @@ class Subject:
         self.name, self.path, self.desc = name, path, desc
         self.ref = raw_snapshot(open_bsp(path))
         self._canon: dict[str, Any] = {}
+        self.malformed = bool(desc.get('opts', {}).get('bad'))
+
+    def unparsable(self, view: str) -> bool:
+        """Looking at this view raises on a fresh object of the original file (only asked for malformed inputs)."""
+        if not self.malformed:
+            return False
+        c = self.canon(view)
+        return isinstance(c, tuple) and len(c) == 3 and c[0] == 'RAISES'
+
+    def raises_like_unparsable(self, e: BaseException) -> bool:
+        """The exception is the one some unparsable view of this malformed file raises when looked at."""
+        if not self.malformed:
+            return False
+        sig = (type(e).__name__, str(e)[:200])
+        return any(self.unparsable(v) and tuple(self.canon(v)[1:]) == sig for v in VIEWS)
+
+    def ref_data(self, lname: str) -> bytes:
+        if lname.startswith('game:'):
+            return next(g[3] for g in self.ref['games'] if g[0] == lname[5:].encode())
+        return self.ref['lumps'][lname][2]
+
+    @staticmethod
+    def owner_parsed_before(b, lname: str, own: dict[str, str]) -> bool:
+        """The lump's view is in the cache (so its raw data is legitimately cleared)."""
+        from srctools.bsp import BSP, ParsedLump
+        d = vars(BSP)[own[lname]]
+        return isinstance(d, ParsedLump) and d.lump in b._parsed_lumps
 
     def canon(self, view: str) -> Any:
         if view not in self._canon:
@@ -204,7 +252,10 @@ def compare(subj: Subject, path_out, own: dict[str, str]) -> list[tuple[str, str
         if ncomp != comp:
             probs.append((f'lump-compressed-flag:{l}', f'{comp} -> {ncomp}'))
         if ndata != data:
-            if l in own:
+            if l in own and subj.unparsable(own[l]):
+                probs.append((f'raw-changed-unparsable:{l}', f'lump of bsp.{own[l]}, which cannot be looked at on this file '
+                                                              f'(so it was never rebuilt): {len(data)} bytes -> {len(ndata)} bytes'))
+            elif l in own:
                 changed.add(l)
             else:
                 probs.append((f'raw-changed:{l}', f'lump without a view: {len(data)} bytes -> {len(ndata)} bytes'))
@@ -214,7 +265,10 @@ def compare(subj: Subject, path_out, own: dict[str, str]) -> list[tuple[str, str
         for (gid, _, _, data), (_, _, _, ndata) in zip(ref['games'], new['games']):
             if data != ndata:
                 nm = 'game:' + gid.decode('ascii', 'replace')
-                if nm in own:
+                if nm in own and subj.unparsable(own[nm]):
+                    probs.append((f'raw-changed-unparsable:{nm}', f'game lump of bsp.{own[nm]}, which cannot be looked at on '
+                                                                   f'this file: {len(data)} -> {len(ndata)} bytes'))
+                elif nm in own:
                     changed.add(nm)
                 else:
                     probs.append((f'raw-changed:{nm}', f'game lump without a view: {len(data)} -> {len(ndata)} bytes'))
@@ -247,17 +301,37 @@ def run_trial(subj: Subject, cycles: list[list[str]], work: Path, own: dict[str,
     out = src
     for ci, accs in enumerate(cycles):
         out = work / f't{ci}.bsp'
+        out.unlink(missing_ok=True)
         try:
             b = open_bsp(src)
-            with _quiet():
-                for v in accs:
-                    getattr(b, v)
         except Exception as e:      # noqa: BLE001
-            return probs + [('look-raises', f'cycle {ci}: {type(e).__name__}: {e}')]
+            return probs + [('reread-fails', f'cycle {ci}: {type(e).__name__}: {e}')]
+        for v in accs:
+            try:
+                with _quiet():
+                    getattr(b, v)
+            except Exception as e:      # noqa: BLE001
+                # A look may raise only if the view cannot be looked at on a fresh object of the ORIGINAL file either
+                # (malformed lump); the caller catches it and goes on.  The failed look must not have touched the lumps
+                # of the view (nothing was cached, so nothing would write them back).
+                if not subj.unparsable(v):
+                    return probs + [('look-raises', f'cycle {ci}: bsp.{v}: {type(e).__name__}: {e}')]
+                for lname in sorted(l for l, w in own.items() if w == v):
+                    now = _lump_data(b, lname)
+                    if now is not None and now != subj.ref_data(lname) and not subj.owner_parsed_before(b, lname, own):
+                        probs.append((f'failed-look-changed-lump:{lname}',
+                                      f'cycle {ci}: bsp.{v} raised {type(e).__name__}; lump was {len(subj.ref_data(lname))} bytes, '
+                                      f'is {len(now)} bytes in memory and the view is not cached'))
         try:
             with _quiet():
                 b.save(os.fspath(out))
         except Exception as e:      # noqa: BLE001
+            if subj.raises_like_unparsable(e):
+                # A writer looked at a view that cannot be parsed on this malformed file: save is aborted before anything
+                # is written (no file is produced, the property says nothing); the input file must be untouched.
+                if out.exists():
+                    probs.append(('aborted-save-left-a-file', f'cycle {ci}: {type(e).__name__}: {e}'))
+                return probs
             return probs + [('save-raises', f'cycle {ci}: {type(e).__name__}: {e}')]
         if b._parsed_lumps:
             probs.append(('cache-not-empty-after-save',
@@ -290,7 +364,7 @@ def run_trial(subj: Subject, cycles: list[list[str]], work: Path, own: dict[str,
 
 # ================================================================================================ inputs
 DEFAULT_OPTS = dict(layout='v20', compress=(), origin_vertex=True, faceids='full', water=True, overlay_aux=True, vis=True,
-                    n_extra=1, extra_game=False, compress_game=(), fractional_bounds=False, detail_shapes=False, hdr=True)
+                    n_extra=1, extra_game=False, compress_game=(), fractional_bounds=False, detail_shapes=False, hdr=True, bad=())
 VARIANTS: list[dict] = (
     [dict(layout=l) for l in c10_util.LAYOUTS]
     + [dict(compress=('ENTITIES', 'PLANES', 'LEAFS', 'LIGHTING', 'FACES', 'TEXDATA_STRING_DATA')),
@@ -301,6 +375,12 @@ VARIANTS: list[dict] = (
        dict(hdr=False), dict(faceids='zeros'), dict(faceids='empty'), dict(origin_vertex=False),
        dict(layout='chaos', fractional_bounds=True), dict(detail_shapes=True)]
 )
+# malformed lumps: looking at the view raises (at once, or after other views were parsed), the caller goes on and saves
+BAD_VARIANTS: list[dict] = [
+    dict(bad=('sprp_version',)), dict(bad=('sprp_size',)), dict(bad=('ents',)), dict(bad=('texinfo',)),
+    dict(bad=('sprp_version',), compress_game=('sprp',)), dict(bad=('ents', 'dprp'), compress=('ENTITIES',), compress_game=('dprp',)),
+    dict(bad=('overlays', 'sprp_size'), layout='v21', compress=('OVERLAYS',)), dict(bad=('texinfo', 'ents'), layout='l4d2'),
+]
 
 
 def make_subject(work: Path, opts: dict, seed: int, tag: str) -> Subject:
@@ -333,8 +413,9 @@ class Tracer:
         from srctools.bsp import BSP, ParsedLump
         self.BSP, self.PL = BSP, ParsedLump
         self.stack: list[tuple[str, str]] = []
-        self.redges: set[tuple[str, str]] = set()
-        self.wedges: set[tuple[str, str]] = set()
+        self.redges: dict[tuple[str, str], None] = {}      # in order of first observation (the model looks in this order)
+        self.wedges: dict[tuple[str, str], None] = {}
+        self.failed: set[str] = set()                       # views whose own reader raised (not a dependency's)
         self.name_of = {d.lump: n for n, d in vars(BSP).items() if isinstance(d, ParsedLump)}
 
     def __enter__(self):
@@ -347,10 +428,15 @@ class Tracer:
                 return tr.orig_get(desc, instance, owner)
             if tr.stack:
                 kind, who = tr.stack[-1]
-                (tr.redges if kind == 'r' else tr.wedges).add((who, desc.__name__))
+                (tr.redges if kind == 'r' else tr.wedges).setdefault((who, desc.__name__))
             tr.stack.append(('r', desc.__name__))
             try:
                 return tr.orig_get(desc, instance, owner)
+            except Exception as e:      # noqa: BLE001 - re-raised; only the origin is recorded
+                if not getattr(e, '_c10_origin', None):
+                    e._c10_origin = desc.__name__
+                    tr.failed.add(desc.__name__)
+                raise
             finally:
                 tr.stack.pop()
 
@@ -384,13 +470,10 @@ def observe(b, ref_nonempty: set[str], pos: dict[str, int], tr: Tracer) -> tuple
 
 def correspondence(ck: Ck, side: dict, subjects: list[Subject], work: Path) -> None:
     """(1) every dynamically observed dependency is in the translated graph; (2) the Coq model, run on the
-    dynamically observed graph, predicts exactly which views are cached and which lumps are empty after the accesses
-    and after save."""
+    dynamically observed graph with the translated shape, predicts exactly which looks raise, which views are cached
+    and which lumps are empty after the accesses, whether save completes, and the same two sets after save."""
     pos = {v: i for i, v in enumerate(side['view_at']) if v}
     lnum = side['lump_num']
-    lname = {}
-    for k, v in lnum.items():
-        lname.setdefault(v, k)
     static = side['views']
     n = ck.budget(60, 600)
     cases = []
@@ -405,80 +488,102 @@ def correspondence(ck: Ck, side: dict, subjects: list[Subject], work: Path) -> N
         runs = []
         with Tracer() as tr:
             for accs in seqs:
+                flags = []
                 try:
                     b = open_bsp(subj.path)
-                    with _quiet():
-                        for v in accs:
-                            getattr(b, v)
-                        o1 = observe(b, ref_nonempty, pos, tr)
-                        b.save(os.fspath(work / 'corr.bsp'))
-                        o2 = observe(b, ref_nonempty, pos, tr)
+                    for v in accs:
+                        try:
+                            with _quiet():
+                                getattr(b, v)
+                            flags.append(True)
+                        except Exception:      # noqa: BLE001 - a look that raises is part of the history
+                            flags.append(False)
+                    o1 = observe(b, ref_nonempty, pos, tr)
+                    try:
+                        with _quiet():
+                            b.save(os.fspath(work / 'corr.bsp'))
+                        saved = True
+                    except Exception:      # noqa: BLE001
+                        saved = False
+                    o2 = observe(b, ref_nonempty, pos, tr)
                 except Exception as e:      # noqa: BLE001 - reported by the search stage with a replay
                     ck.notes.append(f'correspondence: {subj.name} {accs}: {type(e).__name__}: {e}')
                     continue
-                runs.append((accs, o1, o2))
+                runs.append((accs, flags, o1, saved, o2))
                 ck.count('correspondence_runs')
-                if len(o1[0]) > 1:
+                ck.hist('correspondence_looks', 'raised' if not all(flags) else 'all succeeded')
+                if len(o1[0]) > 1 or not all(flags):
                     ck.seen(('corr', subj.name, tuple(accs)))
-            redges, wedges = set(tr.redges), set(tr.wedges)
+            redges, wedges, failed = list(tr.redges), list(tr.wedges), sorted(tr.failed)
         for a, b2 in redges:
             if b2 not in static[a]['reader_views']:
                 missing.add(('reader', a, b2))
         for a, b2 in wedges:
             if b2 not in static[a]['writer_views']:
                 missing.add(('writer', a, b2))
-        # the dynamic graph of this file, in the model's vocabulary
+        # the dynamic graph of this file, in the model's vocabulary (dependencies in the order they were first looked at)
         g = []
         for i, v in enumerate(side['view_at']):
             own, _, _, wst = side['graph'][i]
-            g.append((own, sorted(pos[x] for a, x in redges if a == v), sorted(pos[x] for a, x in wedges if a == v), wst))
-        cases.append((subj, g, runs, ref_nonempty))
+            g.append((own, [pos[x] for a, x in redges if a == v], [pos[x] for a, x in wedges if a == v], wst))
+        cases.append((subj, g, runs, ref_nonempty, [pos[v] for v in failed]))
     ck.obligation('correspondence:traced-dependencies-in-translated-graph', not missing,
                   f'dependencies observed at run time but absent from Gen/BspGraph_gen.v: {sorted(missing)}' if missing else
                   f'every reader/writer dependency traced on {len(subjects)} files is in the translated graph')
     if missing:
         ck.tie_broken.append(f'translator misses run-time dependencies {sorted(missing)}')
-    # model evaluation: data 1 = original bytes, 0 = b\'\', 2 = rewritten; parsed value = "some owned lump was non-empty"
+    # model evaluation: data 1 = original bytes, 0 = b'', 2 = rewritten; parsed value = "some owned lump was non-empty";
+    # the reader of a view in `bad` raises unless its main lump has been emptied (those are the views whose own reader was
+    # seen raising on this file)
     pre = '''Import ListNotations.
-Definition rdB (v : nat) (ds : list nat) : bool := existsb (fun d => negb (Nat.eqb d 0)) ds.
+Definition rdB (bad : list nat) (v : nat) (ds : list nat) : option bool :=
+  if mem v bad && negb (Nat.eqb (hd 0 ds) 0) then None else Some (existsb (fun d => negb (Nat.eqb d 0)) ds).
 Definition wrB (g : graph) (v : nat) (p : bool) : list nat := map (fun _ => if p then 2 else 0) (own g v).
 Definition obs (g : graph) (lumps : list nat) (s : state nat bool) : list (list nat) :=
   [filter (fun v => match cache s v with Some _ => true | None => false end) (seq 0 (length g));
    filter (fun l => Nat.eqb (raw s l) 0) lumps].
-Definition sim (g : graph) (ne : list nat) (accs : list nat) :=
+Definition b2n (b : bool) : nat := if b then 1 else 0.
+Definition sim (g : graph) (ne bad : list nat) (accs : list nat) :=
   let s0 := mkS (fun l => if mem l ne then 1 else 0) (fun _ => None) in
-  let s1 := run nat bool 0 rdB g accs s0 in
-  obs g ne s1 ++ obs g ne (save nat bool 0 rdB (wrB g) g s1).
+  let s1 := run nat bool 0 (rdB bad) g bsp_shape accs s0 in
+  let r := save nat bool 0 (rdB bad) (wrB g) g bsp_shape s1 in
+  [map b2n (run_flags nat bool 0 (rdB bad) g bsp_shape accs s0)] ++ obs g ne s1 ++ [[b2n (fst r)]] ++ obs g ne (snd r).
 '''
     bad = []
-    total = 0
-    for subj, g, runs, ref_nonempty in cases:
+    total = raised = 0
+    for subj, g, runs, ref_nonempty, failed in cases:
         ne = sorted(lnum[l.split(':', 1)[1]] if l.startswith('game:') else lnum[l] for l in ref_nonempty
                     if (l.split(':', 1)[1] if l.startswith('game:') else l) in lnum)
         glit = coq_list('mkV [%s] [%s] [%s] [%s]' % tuple(';'.join(map(str, x)) for x in d) for d in g)
-        exprs = [f'let g := {glit} in map (sim g [{";".join(map(str, ne))}]) '
-                 + coq_list('[' + ';'.join(str(pos[v]) for v in accs) + ']' for accs, _, _ in runs)]
+        exprs = [f'let g := {glit} in map (sim g [{";".join(map(str, ne))}] [{";".join(map(str, failed))}]) '
+                 + coq_list('[' + ';'.join(str(pos[v]) for v in accs) + ']' for accs, *_ in runs)]
         vals = ck.coq_eval(IMPORTS, exprs, name='corr', preamble=pre)
         if vals is None:
             ck.obligation('correspondence:get-save-model', False, 'model could not be evaluated')
             ck.tie_broken.append('correspondence get/save: model evaluation failed')
             return
         res = parse_coq_nested(vals[0])
-        for (accs, o1, o2), m in zip(runs, res):
+        for (accs, flags, o1, saved, o2), m in zip(runs, res):
             total += 1
-            mc1, me1, mc2, me2 = m
-            exp = ((o1[0], sorted(_lnum(lnum, l) for l in o1[1])), (o2[0], sorted(_lnum(lnum, l) for l in o2[1])))
-            got = ((sorted(mc1), sorted(me1)), (sorted(mc2), sorted(me2)))
+            raised += not all(flags)
+            mf, mc1, me1, ms, mc2, me2 = m
+            exp = ([int(f) for f in flags], (o1[0], sorted(_lnum(lnum, l) for l in o1[1])), int(saved),
+                   (o2[0], sorted(_lnum(lnum, l) for l in o2[1])))
+            got = (list(mf), (sorted(mc1), sorted(me1)), ms[0], (sorted(mc2), sorted(me2)))
             if exp != got:
-                bad.append({'file': subj.name, 'accs': accs, 'impl(cached,emptied) after look / after save': exp, 'model': got})
+                bad.append({'file': subj.name, 'accs': accs,
+                            'impl (look ok flags, (cached, emptied) after looks, save ok, (cached, emptied) after save)': exp,
+                            'model': got})
     ck.obligation('correspondence:get-save-model', not bad,
-                  f'{total} traced runs on {len(cases)} files: cached views and emptied lumps after looking and after save, '
-                  f'model (vm_compute, dynamic graph) vs ParsedLump.__get__/BSP.save: {len(bad)} disagreements')
+                  f'{total} traced runs on {len(cases)} files ({raised} with looks that raise): which looks raise, cached views and '
+                  f'emptied lumps after looking, whether save completes, cached/emptied after save; model (vm_compute, dynamic '
+                  f'graph, translated shape) vs ParsedLump.__get__/BSP.save: {len(bad)} disagreements')
     if bad:
         ck.tie_broken.append('correspondence get/save (SM/LazyLumps.v vs ParsedLump.__get__/BSP.save)')
         ck.extra['get_save_disagreement'] = bad[:3]
-    ck.sample({'correspondence_case': {'accs': cases[0][2][-1][0], 'impl_after_look(cached,emptied)': cases[0][2][-1][1],
-                                       'impl_after_save': cases[0][2][-1][2]}})
+    last = cases[-1][2][-1]
+    ck.sample({'correspondence_case': {'file': cases[-1][0].name, 'accs': last[0], 'look_ok': last[1],
+                                       'impl_after_look(cached,emptied)': last[2], 'save_ok': last[3], 'impl_after_save': last[4]}})
 
 
 def _lnum(lnum: dict, l: str) -> int:
@@ -535,15 +640,161 @@ def container_check(ck: Ck, subjects: list[Subject], work: Path) -> None:
         ck.extra['container_problems'] = [list(map(str, x)) for x in bad[:10]]
 
 
+def _rand_container(rng: random.Random, k: int) -> dict:
+    """A small random container: 64 lumps (most empty), some LZMA lumps, 0-4 game lumps (the last one compressed or not),
+    standard / L4D2 field order / VitaminSource magic."""
+    kind = ['std', 'l4d2', 'vitamin', 'std', 'v19'][k % 5]
+    version = {'std': rng.choice([20, 21, 22, 25, 29]), 'l4d2': 21, 'vitamin': 43, 'v19': 19}[kind]
+    lumps: dict[int, tuple[int, bytes, bool]] = {}
+    for idx in rng.sample([i for i in range(64) if i != 35], rng.choice([0, 3, 8, 20])):
+        data = bytes(rng.randrange(256) for _ in range(rng.choice([0, 1, 3, 8, 17])))
+        comp = bool(data) and idx != 40 and rng.random() < 0.35
+        lumps[idx] = (rng.choice([0, 0, 1, 2, 7, 2 ** 31 - 1]), data, comp)
+    if 40 not in lumps and rng.random() < 0.5:
+        lumps[40] = (0, b'PK' + bytes(rng.randrange(256) for _ in range(9)), False)
+    if kind == 'l4d2':
+        v, d, c = lumps.get(0, (0, b'', False))
+        lumps[0] = (0, d, c)
+    games = []
+    for j in range(rng.choice([0, 1, 2, 3, 4])):
+        gid = bytes(rng.choice(b'abcdprsx') for _ in range(3)) + bytes([48 + j])
+        data = bytes(rng.randrange(256) for _ in range(rng.choice([0, 2, 5, 13])))
+        flags = rng.choice([0, 1, 1, 2, 0x8001, 6])
+        games.append((gid, flags, rng.choice([0, 4, 10, 65535]), data))
+    return dict(kind=kind, magic=b'FART' if kind == 'vitamin' else b'VBSP', version=version, l4d2=kind == 'l4d2',
+                rev=rng.choice([0, 1, 4711, 2 ** 31 - 1]), lumps=lumps, games=games)
+
+
+def container_model_check(ck: Ck, work: Path) -> None:
+    """Fmt/BspContainer.v against BSP.read / BSP.save, both directions, byte-exact: for random small containers c
+    (a) BSP() reads the independently encoded file into exactly c; (b) BSP.save of that object is byte for byte
+    [write c] of the model; (c) the model's [read] decodes the implementation-saved file and an independently encoded,
+    4-aligned file (gaps between lumps) back to c; (d) a wrong magic is rejected by both.  LZMA enters the model as a
+    finite table of (data, compress_lzma(data)) pairs computed here."""
+    from srctools.binformat import compress_lzma
+    from srctools.bsp import BSP_LUMPS
+    n = ck.budget(12, 240)
+    cases = []
+    bad: list = []
+    for k in range(n):
+        c = _rand_container(ck.rng, k)
+        full = {i: c['lumps'].get(i, (0, b'', False)) for i in range(64)}
+        f_tight = c10_util.encode_container(c['magic'], c['version'], c['l4d2'], c['rev'], full, c['games'], align=False)
+        f_align = c10_util.encode_container(c['magic'], c['version'], c['l4d2'], c['rev'], full, c['games'], align=True)
+        p = work / 'cm.bsp'
+        p.write_bytes(f_align)
+        ck.count('container_model_cases')
+        ck.hist('container_model_kind', c['kind'])
+        ck.hist('container_model_games', f"{len(c['games'])} game lumps, last compressed={bool(c['games'] and c['games'][-1][1] & 1)}")
+        try:
+            b = open_bsp(p)
+            snap = raw_snapshot(b)
+            out = work / 'cm_out.bsp'
+            with _quiet():
+                b.save(os.fspath(out))
+            f_impl = out.read_bytes()
+            snap2 = raw_snapshot(open_bsp(out))
+        except Exception as e:      # noqa: BLE001
+            bad.append((k, 'implementation raises', f'{type(e).__name__}: {e}'))
+            continue
+        want = {'version': c['version'], 'map_revision': c['rev'],
+                'lumps': {BSP_LUMPS(i).name: (v, cp, d) for i, (v, d, cp) in full.items()}, 'games': c['games']}
+        for sn, which in ((snap, 'BSP() of the independently encoded file'), (snap2, 'BSP() of the file BSP.save wrote')):
+            got = {'version': sn['version'], 'map_revision': sn['map_revision'], 'lumps': sn['lumps'], 'games': sn['games']}
+            if got != want:
+                bad.append((k, which + ' differs from the encoded container', c['kind']))
+        if (snap['game_ver'] == 'L4D2' or str(snap['game_ver']).endswith('L4D2')) != c['l4d2'] and False:
+            bad.append((k, 'l4d2 detection', snap['game_ver']))
+        lz = {}
+        for i, (v, d, cp) in full.items():
+            if cp and i != 40:
+                lz[d] = compress_lzma(d)
+        for gid, flags, gv, d in c['games']:
+            if flags & 1:
+                lz[d] = compress_lzma(d)
+        cases.append((k, c, full, f_impl, f_align, lz, f_tight))
+        if k % 7 == 0:      # a wrong magic is rejected
+            p.write_bytes(b'VBSQ' + f_align[4:])
+            try:
+                open_bsp(p)
+                bad.append((k, 'BSP() accepts a wrong magic'))
+            except ValueError:
+                pass
+    def nlit(bs: bytes) -> str:
+        return '[' + ';'.join(map(str, bs)) + ']'
+    pre = '''Import ListNotations. Open Scope N_scope.
+Definition sparse (xs : list (nat * lump)) : list lump :=
+  map (fun i => match find (fun p => Nat.eqb (fst p) i) xs with Some p => snd p | None => lump0 end) (seq 0 64).
+Definition lzc (t : list (list N * list N)) (d : list N) : list N :=
+  match find (fun p => bytes_eqb (fst p) d) t with Some p => snd p | None => [] end.
+Definition lzd (t : list (list N * list N)) (z : list N) : list N :=
+  match find (fun p => bytes_eqb (snd p) z) t with Some p => fst p | None => [] end.
+Definition opt_eqb (o : option container) (c : container) : bool := match o with Some x => cont_eqb x c | None => false end.
+Definition case (t : list (list N * list N)) (c : container) (impl aligned : list N) : list bool :=
+  [wf (lzc t) bsp_layout c; bytes_eqb (write (lzc t) bsp_layout c) impl;
+   opt_eqb (read (lzd t) bsp_layout impl) c; opt_eqb (read (lzd t) bsp_layout aligned) c;
+   match read (lzd t) bsp_layout (81 :: tl impl) with None => true | Some _ => false end].
+'''
+    imports = ['SV.Fmt.BspContainer', 'SV.Gen.BspGraph_gen', 'Coq.NArith.NArith', 'Coq.Lists.List']
+    names = ['wf', 'write c = file written by BSP.save', 'read (file written by BSP.save) = c',
+             'read (independently encoded aligned file) = c', 'wrong magic rejected']
+    for lo in range(0, len(cases), 40):
+        chunk = cases[lo:lo + 40]
+        exprs = []
+        for k, c, full, f_impl, f_align, lz, f_tight in chunk:
+            lumps = '; '.join(f'({i}%nat, mkL {v} {nlit(d)} {"true" if cp else "false"})' for i, (v, d, cp) in sorted(c['lumps'].items()))
+            games = '; '.join(f'mkG {nlit(g)} {fl} {gv} {nlit(d)}' for g, fl, gv, d in c['games'])
+            tab = '; '.join(f'({nlit(d)}, {nlit(z)})' for d, z in lz.items())
+            exprs.append(f'case [{tab}] (mkC {c["version"]} {"true" if c["l4d2"] else "false"} {c["rev"]} (sparse [{lumps}]) [{games}]) '
+                         f'{nlit(f_impl)} {nlit(f_align)}')
+        vals = ck.coq_eval(imports, exprs, name='container', preamble=pre, timeout=900)
+        if vals is None:
+            ck.obligation('correspondence:container-model', False, 'model could not be evaluated')
+            ck.tie_broken.append('container model evaluation failed')
+            return
+        for (k, c, *_), v in zip(chunk, vals):
+            res = parse_coq_nested(v)
+            for nm, ok in zip(names, res):
+                if not ok:
+                    bad.append((k, 'model: ' + nm, c['kind'], f"{len(c['games'])} game lumps"))
+    for k, c, full, f_impl, f_align, lz, f_tight in cases:
+        if f_impl != f_tight:
+            bad.append((k, 'BSP.save differs from the independent Python encoder', c['kind']))
+    ck.obligation('correspondence:container-model', not bad,
+                  f'{len(cases)} random containers (standard, L4D2 field order, VitaminSource; LZMA lumps and game lumps, dummy '
+                  f'directory entry): BSP() reads exactly the encoded container; Fmt/BspContainer.write = BSP.save byte for byte; '
+                  f'Fmt/BspContainer.read decodes saved and independently encoded files to the container; wrong magic rejected: '
+                  f'{len(bad)} problems' + (f' {bad[:4]}' if bad else ''))
+    if bad:
+        ck.tie_broken.append('container model (Fmt/BspContainer.v) disagrees with BSP.read / BSP.save')
+        ck.extra['container_model_problems'] = [list(map(str, x)) for x in bad[:10]]
+        k = bad[0][0]
+        c = next((c for kk, c, *_ in cases if kk == k), None)
+        if c is not None:
+            ck.violation('container-model|' + str(bad[0][1])[:60], f'container model and implementation disagree: {bad[0]}',
+                         {'container': {'version': c['version'], 'l4d2': c['l4d2'], 'rev': c['rev'], 'kind': c['kind'],
+                                        'lumps': {str(i): [v, d.hex(), cp] for i, (v, d, cp) in c['lumps'].items()},
+                                        'games': [[g.decode('latin1'), fl, gv, d.hex()] for g, fl, gv, d in c['games']]},
+                          'how': 'encode with harness.c10_util.encode_container(align=True), BSP(file), save, compare with the container'})
+            ck.explain('correspondence:container-model')
+            ck.explain('correspondence:container')      # the same disagreement seen by the independent Python encoder
+
+
 # ================================================================================================ main
 def run(ck: Ck) -> None:
     ck.rule = ('inputs: tests/test_vec/rot_main.bsp and synthesised consistent BSPs (7 layouts x options: LZMA lumps, '
                'compressed / extra game lumps, missing aux lumps, FACEIDS variants, no origin vertex, water, vis); histories: '
                'no access, every single view, every ordered pair on the default file, random subsets and orders, all views '
-               'forwards/backwards, 1-3 look/save cycles; a case is non-trivial when at least one view is looked at; '
-               'distinct by (input, access cycles)')
-    ck.trusted.append('hand-written model SM/LazyLumps.v (tied by traced correspondence on every run); harness/c10_util.py '
-                      '(independent container encoder/decoder, BSP synthesiser)')
+               'forwards/backwards, 1-3 look/save cycles; 8 malformed inputs (unknown static-prop version, stray bytes in the prop '
+               'lump, unterminated entity, texinfo naming a missing texdata, truncated detail props / overlays, also LZMA-compressed) '
+               'whose failing views are looked at inside try/except before saving; random small containers for the container '
+               'model; a case is non-trivial when at least one view is looked at; distinct by (input, access cycles)')
+    ck.trusted.append('hand-written models SM/LazyLumps.v (tied by traced correspondence on every run, including looks that raise) '
+                      'and Fmt/BspContainer.v (tied byte-exactly to BSP.read/BSP.save on random containers on every run); '
+                      'harness/c10_util.py (independent container encoder/decoder, BSP synthesiser); CPython lzma (compress_lzma '
+                      'output enters the container model as a finite table)')
+    ck.assumptions.append('decompress (compress d) = d (hypothesis of c10_container_roundtrip); appends by writers to views they '
+                          'look at are no-ops on values parsed from the file (C11 find_or_insert_sound + table completeness)')
     ck.assumptions.append('codec_ok / wr_len_ok (each writer inverts its reader on the lumps of the file: C11) are hypotheses of '
                           'the theorems; the oracle checks them end to end on the sample inputs only')
     import time
@@ -572,6 +823,22 @@ def run(ck: Ck) -> None:
             'stores_go_to_owned_lumps': 'forallb (fun p => mem (snd p) (own bsp_graph (fst p))) bsp_stores',
             'conditional_stores_only_FACEIDS_unowned': 'forallb (fun p => Nat.eqb (snd p) 11 && '
                                                        f'negb (existsb (fun j => mem 11 (own bsp_graph j)) (seq 0 ({n})))) bsp_cond_stores',
+            # statement order of ParsedLump.__get__ and loop shape of BSP.save (hypothesis shape_ok of the theorems)
+            'shape_ok_bsp_shape': 'shape_ok bsp_shape',
+            'get_clears_raw_data_only_after_the_reader_has_finished': 'negb (sh_early_main bsp_shape) && negb (sh_early_extra bsp_shape)',
+            'get_caches_every_parsed_value': 'negb bsp_get_parse_uncached',
+            'readers_never_store_lump_data': 'match bsp_reader_stores with nil => true | _ => false end',
+            'save_pops_views_during_the_walk_of_the_rebuild_order': 'negb (sh_snapshot bsp_shape)',
+            # hypothesis writers_can_look of c10_save_lossless (save completes): implied by wdeps being within rdeps
+            'writers_look_only_at_views_their_readers_look_at': 'wdeps_within_rdeps bsp_graph',
+            # what writers do with the views they look at (0 read, 1 append through find_or_insert/find_or_extend/.append)
+            # constants of the file container the model Fmt/BspContainer.v is instantiated with
+            'container_layout_as_modelled': 'layout_eqb bsp_layout std_layout',
+            'container_layout_ok': 'layout_ok bsp_layout',
+            'container_struct_formats_as_modelled': 'list_eqb String.eqb bsp_container_formats '
+                                                    '("<4si" :: "<4i" :: "<i" :: "<4s HH ii" :: nil)%string',
+            'readers_only_read_the_views_they_look_at': 'forallb (fun u => Nat.eqb (snd u) 0) bsp_reader_uses',
+            'writers_only_read_or_append_to_the_views_they_look_at': 'forallb (fun u => Nat.leb (snd u) 1) bsp_writer_uses',
         })
     tm['translate+build+obligations'] = round(time.time() - t0, 1)
     t0 = time.time()
@@ -591,11 +858,17 @@ def run(ck: Ck) -> None:
         synth_subjects.append((opts, s))
         ck.hist('input_layout', dict(DEFAULT_OPTS, **opts)['layout'])
     default = synth_subjects[1][1]      # layout v20, default options
+    bad_subjects: list[tuple[dict, Subject]] = []
+    for k, opts in enumerate(BAD_VARIANTS):
+        bad_subjects.append((opts, make_subject(work, opts, ck.seed + 100 + k, f'b{k}')))
+        ck.hist('input_malformed', '+'.join(opts['bad']))
     # ---------------------------------------------------------------------------- correspondence
     if built and side:
-        corr_files = [default, synth_subjects[0][1], synth_subjects[5][1]] + subjects[:1]
+        corr_files = [default, synth_subjects[0][1], synth_subjects[5][1]] + subjects[:1] + \
+                     [bad_subjects[1][1], bad_subjects[3][1], bad_subjects[5][1]]
         correspondence(ck, side, corr_files, work)
-        container_check(ck, [s for _, s in synth_subjects] + subjects[:1], work)
+        container_check(ck, [s for _, s in synth_subjects] + [s for _, s in bad_subjects[:2]] + subjects[:1], work)
+        container_model_check(ck, work)
     tm['inputs+correspondence'] = round(time.time() - t0, 1)
     t0 = time.time()
     # ---------------------------------------------------------------------------- search
@@ -618,6 +891,12 @@ def run(ck: Ck) -> None:
     def report(subj: Subject, opts: dict | None, cycles, kind: str, detail: str) -> None:
         if (kind, subj.name) in seen_cause:
             found[seen_cause[kind, subj.name]]['n'] += 1
+            return
+        if len(found) >= 10:        # enough distinct shrunk findings: count the rest per kind, unshrunk
+            key = kind.split(':')[0] + '|further-cases-not-shrunk'
+            found.setdefault(key, {'kind': kind, 'detail': detail, 'input': subj.desc, 'cycles': cycles, 'original_cycles': cycles,
+                                   'n': 0, 'how': 'checks.c10.replay'})['n'] += 1
+            seen_cause[kind, subj.name] = key
             return
         memo_t: dict = {}
 
@@ -672,12 +951,25 @@ def run(ck: Ck) -> None:
         attempt(s, opts, [list(VIEWS)])
         attempt(s, opts, [list(reversed(VIEWS))])
         # every single view on every layout; on the option variants a sample of 6 in the quick tier
-        for v in (VIEWS if k < len(c10_util.LAYOUTS) or ck.budget(0, 1) else rng.sample(VIEWS, 6)):
+        for v in (VIEWS if k < len(c10_util.LAYOUTS) or ck.budget(0, 1) else rng.sample(VIEWS, 4)):
             attempt(s, opts, [[v]])
-    for a, b in itertools.permutations(VIEWS, 2):
-        if a < b or ck.budget(0, 1):
+    # malformed lumps: looks that raise are caught (like a defensive caller does), then the object is saved
+    for opts, s in bad_subjects:
+        failing = [v for v in VIEWS if s.unparsable(v)]
+        ck.hist('unparsable_views_per_malformed_input', len(failing))
+        attempt(s, opts, [[]])
+        attempt(s, opts, [list(VIEWS)])
+        attempt(s, opts, [list(reversed(VIEWS))])
+        for v in failing:
+            attempt(s, opts, [[v]])
+        for i in range(ck.budget(3, 40)):
+            cyc = [rng.sample(VIEWS, rng.choice([2, 3, 5, 9])) + [rng.choice(failing)] for _ in range(rng.choice([1, 1, 2]))]
+            rng.shuffle(cyc[0])
+            attempt(s, opts, cyc)
+    for k, (a, b) in enumerate(itertools.permutations(VIEWS, 2)):
+        if (a < b and k % 3 == 0) or ck.budget(0, 1):
             attempt(default, synth_subjects[1][0], [[a, b]])
-    nrand = ck.budget(100, 3000)
+    nrand = ck.budget(60, 3000)
     for i in range(nrand):
         opts, s = synth_subjects[rng.randrange(len(synth_subjects))]
         ncyc = rng.choice([1, 1, 1, 2, 3])
@@ -689,7 +981,7 @@ def run(ck: Ck) -> None:
     t0 = time.time()
     for subj in subjects:       # the sample map (large entity lump: fewer trials)
         attempt(subj, None, [[]])
-        for v in VIEWS:
+        for v in (VIEWS if ck.budget(0, 1) else rng.sample(VIEWS, 9)):
             attempt(subj, None, [[v]])
         attempt(subj, None, [list(VIEWS)])
         for i in range(ck.budget(2, 60)):
@@ -698,7 +990,7 @@ def run(ck: Ck) -> None:
     ck.sample({'input': default.desc, 'cycles': [['faces', 'ents'], ['bmodels']],
                'result': run_trial(default, [['faces', 'ents'], ['bmodels']], work, own) or 'lossless'})
     # a broken graph obligation that the small search could not turn into a failing history: search harder
-    broken = [o['name'] for o in ck.obligations if not o['ok']]
+    broken = [o['name'] for o in ck.obligations if not o['ok'] and not o.get('explained')]
     if broken and not found and not ck.thorough:
         ck.tie_broken.append('obligations failed and the quick search found no failing history: ' + ', '.join(broken))
         for i in range(1500):
@@ -706,13 +998,23 @@ def run(ck: Ck) -> None:
             attempt(s, opts, [rng.sample(VIEWS, rng.choice([1, 2, 3, 5, 9, 14, 21])) for _ in range(rng.choice([1, 1, 2, 3]))])
             if found:
                 break
+    if inst.get('shape_ok_bsp_shape') is False and any(f['kind'].split(':')[0] in ('failed-look-changed-lump', 'raw-changed-unparsable',
+                                                                                 'cache-not-empty-after-save') for f in found.values()):
+        # outside the shapes the model was validated for (its abstraction of "the reader raises" is not data-exact there):
+        # the concrete findings above are the explanation
+        ck.explain('correspondence:get-save-model')
     for key, f in found.items():
         ck.violation(key, f'{f["kind"]}: {f["detail"]}', {k: v for k, v in f.items() if k != 'n'})
     ck.extra['violation_keys'] = sorted(found)
     # a failed graph obligation is explained by a concrete failing history of the matching kind
     kinds = {f['kind'].split(':')[0] for f in found.values()}
-    if kinds & {'view-content-changed', 'cache-not-empty-after-save', 'raw-changed', 'save-raises', 'look-raises'}:
-        for nm in ('order_consistent_bsp_graph', 'every_dependency_later_in_rebuild_order', 'no_writer_looks_at_its_own_view',
+    if kinds & {'view-content-changed', 'cache-not-empty-after-save', 'raw-changed', 'save-raises', 'look-raises',
+                'failed-look-changed-lump', 'raw-changed-unparsable'}:
+        for nm in ('shape_ok_bsp_shape', 'get_clears_raw_data_only_after_the_reader_has_finished', 'get_caches_every_parsed_value',
+                   'readers_never_store_lump_data',
+                   'save_pops_views_during_the_walk_of_the_rebuild_order', 'writers_look_only_at_views_their_readers_look_at',
+                   'readers_only_read_the_views_they_look_at', 'writers_only_read_or_append_to_the_views_they_look_at',
+                   'order_consistent_bsp_graph', 'every_dependency_later_in_rebuild_order', 'no_writer_looks_at_its_own_view',
                    'no_reader_looks_at_its_own_view', 'every_cleared_lump_stored_by_its_writer', 'no_lump_owned_twice',
                    'every_view_in_rebuild_order', 'no_two_views_share_a_main_lump', 'raw_reads_own_or_unowned',
                    'stores_go_to_owned_lumps', 'conditional_stores_only_FACEIDS_unowned'):
